@@ -70,10 +70,11 @@ def make_mixnet(torch, in_f, out_f, img, ctx, seed):
             g = torch.Generator().manual_seed(seed)
             self.A = nn.Parameter(0.3 + 0.4 * torch.rand(in_f * P, out_f * P, generator=g))
             self.C = nn.Parameter(0.2 * torch.rand(ctx, out_f * P, generator=g)) if ctx else None
+            self.offset = 0.0   # added to every output (the harness pushes the parameters far out with it)
 
         def forward(self, x, context=None):
             b = x.shape[0]
-            out = x.reshape(b, -1) @ self.A
+            out = x.reshape(b, -1) @ self.A + self.offset
             if context is not None and self.C is not None:
                 out = out + context @ self.C
             return out.reshape(b, out_f, H, W) if img else out.reshape(b, out_f)
@@ -266,6 +267,24 @@ def check_state(st, cls, ctx, seed, libnet=False):
             if not torch.allclose(yb, yr, atol=1e-5, rtol=1e-5) or not torch.allclose(lb, lr, atol=1e-4, rtol=1e-5):
                 fails.append(dict(case, clause="row_context", detail="rows sharing their %s: the batched call differs from the rows evaluated one by one by %.3g (a transformed feature must depend on its own row's identity features and context only)" % (share, float((yb - yr).abs().max()))))
                 break
+    # (1d) a conditioner that emits very negative parameters: the transformed feature still is a function of
+    # its own input that moves when the input moves (the documented floor of the affine scale is 1e-3), with
+    # a finite log-det
+    if cls == "Affine" and not libnet and not reloaded and hasattr(m.transform_net, "offset"):
+        m.transform_net.offset = -28.0
+        try:
+            with torch.no_grad():
+                xa = xr.clone()
+                xb = xr.clone()
+                xb[:, trans[0]] += 1.0
+                (ya, la), (yb, lb) = f(xa, c), f(xb, c)
+            n += 1
+            if not bool(torch.isfinite(la).all() and torch.isfinite(ya).all()):
+                fails.append(dict(case, clause="own_input", detail="with a conditioner output of -28 the layer returns non-finite values / log-dets"))
+            elif not inv and bool((ya[:, trans[0]] == yb[:, trans[0]]).all()):
+                fails.append(dict(case, clause="own_input", detail="with a conditioner output of -28 transformed feature %d does not move when its own input moves by 1 (scale below the documented floor)" % trans[0]))
+        finally:
+            m.transform_net.offset = 0.0
     # (2) dependency pattern on one generic interior row
     x1 = torch.rand((1,) + shape[1:], generator=g) * 0.8 + 0.1 if bounded else (torch.rand((1,) + shape[1:], generator=g) * 1.2 - 0.6)
     c1 = c[:1] if c is not None else None
